@@ -91,7 +91,7 @@ class Exec:
         s.solver = z3.Solver(); s.solver.set('timeout', min(feas_timeout_ms, 5000))
         s.nq = 0; s.tq = 0.0; s.fresh = 0; s.axioms = []; s._lay = {}; s._ipdom = {}
         s.npaths = 0; s.nmerged = 0; s.ninstr = 0; s.fork_symbolic_memcpy = False
-        s.slicing = True; s._vars = {}; s._keep = []
+        s.slicing = True; s._vars = {}; s._keep = []; s.real_only = None
         s.is_shared = None     # callable(st, ptr) -> bool: accesses to shared cells are scheduling points (llconc)
         s.called = set()
     # ---------- layout
@@ -1068,6 +1068,15 @@ class Exec:
             return None
         if key.startswith('llvm.'):
             return s.intrinsic(st, fr, ins, key, args)
+        if s.real_only is not None and key not in s.real_only:
+            # every callee outside the functions under test is an uninterpreted, logged call (its occurrence is part of the trace)
+            st.log.append(('call', key))
+            rt = s.resolve(ins.a['ret'])
+            if isinstance(rt, VoidT): return None
+            if isinstance(rt, (IntT, FpT)):
+                if ins.dst is not None: fr.regs[ins.dst] = s.newsym(rt, key)
+                return None
+            raise Unsupported('uninterpreted %s returning %r' % (key, rt))
         if name in s.mod.fns:
             fn = s.mod.fns[name]
             regs = {n: v for (t, n), v in zip(fn.params, args)}
